@@ -361,7 +361,100 @@ func checkUTF8Composition(c *Ctx, p *packages.Package) {
 		})
 	})
 	if n < 3 {
-		c.Undecided("R19.3", "emitted decoder composes multi-byte sequences as UTF-8 defines it", token.NoPos, fmt.Sprintf("only %d composed-rune returns of the form rune(b&mask)<<shift | ... were found", n))
+		// the accumulating form: r := rune(b0 & T[size]); for each continuation byte r = r<<6 | rune(b & 0x3F), with a table T of
+		// lead masks indexed by the length of the sequence
+		stepOK, stepSeen, tableOK, tableSeen := false, false, false, false
+		AllFuncDecls(p, func(fd *ast.FuncDecl) {
+			if fd.Body == nil {
+				return
+			}
+			ast.Inspect(fd.Body, func(nd ast.Node) bool {
+				as, ok := nd.(*ast.AssignStmt)
+				if !ok || len(as.Lhs) != 1 || len(as.Rhs) != 1 {
+					return true
+				}
+				lid, ok := as.Lhs[0].(*ast.Ident)
+				if !ok {
+					return true
+				}
+				if or, ok := ast.Unparen(as.Rhs[0]).(*ast.BinaryExpr); ok && or.Op == token.OR {
+					shl, ok1 := ast.Unparen(or.X).(*ast.BinaryExpr)
+					conv, ok2 := ast.Unparen(or.Y).(*ast.CallExpr)
+					if ok1 && ok2 && shl.Op == token.SHL && len(conv.Args) == 1 {
+						if sid, ok := ast.Unparen(shl.X).(*ast.Ident); ok && info.ObjectOf(sid) == info.ObjectOf(lid) {
+							stepSeen = true
+							sv, okS := constInt(info, shl.Y)
+							and, okA := ast.Unparen(conv.Args[0]).(*ast.BinaryExpr)
+							if okS && okA && and.Op == token.AND {
+								mv, okM := constInt(info, and.Y)
+								if !okM {
+									mv, okM = constInt(info, and.X)
+								}
+								stepOK = okM && sv == 6 && mv == 0x3F
+							}
+						}
+					}
+				}
+				// r := rune(b0 & T[size])
+				if conv, ok := ast.Unparen(as.Rhs[0]).(*ast.CallExpr); ok && len(conv.Args) == 1 {
+					if and, ok := ast.Unparen(conv.Args[0]).(*ast.BinaryExpr); ok && and.Op == token.AND {
+						for _, side := range []ast.Expr{and.X, and.Y} {
+							ix, ok := ast.Unparen(side).(*ast.IndexExpr)
+							if !ok {
+								continue
+							}
+							tid, ok := ast.Unparen(ix.X).(*ast.Ident)
+							if !ok {
+								continue
+							}
+							init, _ := PkgVarInit(p, tid.Name)
+							cl, ok := init.(*ast.CompositeLit)
+							if !ok {
+								continue
+							}
+							tableSeen = true
+							vals := map[int64]int64{}
+							next := int64(0)
+							good := true
+							for _, el := range cl.Elts {
+								e := el
+								if kv, ok := el.(*ast.KeyValueExpr); ok {
+									k, ok := constInt(info, kv.Key)
+									if !ok {
+										good = false
+										break
+									}
+									next = k
+									e = kv.Value
+								}
+								v, ok := constInt(info, e)
+								if !ok {
+									good = false
+									break
+								}
+								vals[next] = v
+								next++
+							}
+							tableOK = good
+							for nlen := int64(2); nlen <= 4 && tableOK; nlen++ {
+								if vals[nlen] != 0xFF>>(nlen+1) {
+									tableOK = false
+								}
+							}
+						}
+					}
+				}
+				return true
+			})
+		})
+		switch {
+		case stepSeen && tableSeen:
+			c.Check("R19.3", "emitted decoder composes multi-byte sequences as UTF-8 defines it (accumulating form)", token.NoPos, stepOK && tableOK,
+				fmt.Sprintf("the decoder accumulates r = r<<6 | b&0x3F from a lead-mask table indexed by the length: step as defined=%v, table entries 0xFF>>(n+1) for n=2..4=%v", stepOK, tableOK),
+				"a multi-byte character whose length selects the wrong lead mask")
+		default:
+			c.Undecided("R19.3", "emitted decoder composes multi-byte sequences as UTF-8 defines it", token.NoPos, fmt.Sprintf("only %d composed-rune returns of the form rune(b&mask)<<shift | ... were found", n))
+		}
 	}
 }
 
@@ -1261,6 +1354,72 @@ func checkReaderDiscipline(c *Ctx, p *packages.Package) {
 			}
 			return true
 		})
+	}
+	// (d') Retract moves the cursor back relative to where it stands, modulo the ring: forward = forward - size (+ len(buff) when
+	// that is negative). An assignment that does not mention the old cursor is only right where the cursor is known to be 0.
+	if retract != nil {
+		var stack []ast.Node
+		nAssign, badPos := 0, ""
+		ast.Inspect(retract.Body, func(n ast.Node) bool {
+			if n == nil {
+				stack = stack[:len(stack)-1]
+				return true
+			}
+			stack = append(stack, n)
+			var lhs, rhs ast.Expr
+			switch x := n.(type) {
+			case *ast.AssignStmt:
+				if len(x.Lhs) == 1 && len(x.Rhs) == 1 {
+					lhs, rhs = x.Lhs[0], x.Rhs[0]
+					if x.Tok != token.ASSIGN {
+						rhs = nil // i.forward -= size: relative by construction
+					}
+				}
+			}
+			sel, ok := lhs.(*ast.SelectorExpr)
+			if !ok || sel.Sel.Name != fwdName {
+				return true
+			}
+			nAssign++
+			if rhs == nil {
+				return true
+			}
+			mentions := false
+			ast.Inspect(rhs, func(m ast.Node) bool {
+				if s2, ok := m.(*ast.SelectorExpr); ok && s2.Sel.Name == fwdName {
+					mentions = true
+				}
+				return true
+			})
+			if mentions {
+				return true
+			}
+			// allowed under `forward == 0`
+			atZero := false
+			for _, anc := range stack {
+				ifs, ok := anc.(*ast.IfStmt)
+				if !ok || !(ifs.Body.Pos() <= n.Pos() && n.End() <= ifs.Body.End()) {
+					continue
+				}
+				if b, ok := ast.Unparen(ifs.Cond).(*ast.BinaryExpr); ok && b.Op == token.EQL {
+					l, r := types.ExprString(b.X), types.ExprString(b.Y)
+					if (strings.HasSuffix(l, "."+fwdName) && r == "0") || (strings.HasSuffix(r, "."+fwdName) && l == "0") {
+						atZero = true
+					}
+				}
+			}
+			if !atZero {
+				badPos = types.ExprString(lhs) + " = " + types.ExprString(rhs)
+			}
+			return true
+		})
+		if nAssign == 0 {
+			c.Undecided("R19.4", "reader: Retract moves the cursor back relative to its position (modulo the ring)", token.NoPos, "no assignment to the cursor in Retract")
+		} else {
+			c.Check("R19.4", "reader: Retract moves the cursor back relative to its position (modulo the ring)", token.NoPos, badPos == "",
+				"Retract sets the cursor with `"+badPos+"`, a value that does not depend on where the cursor stands: right only when the cursor is exactly 0; a multi-byte character that straddles the end of the buffer leaves the cursor at 1, 2 or 3, and the retraction lands before the character's first byte",
+				"a multi-byte look-ahead character whose bytes straddle the end of the buffer (input offset 8190 or 8191 with the default size)")
+		}
 	}
 	c.Check("R19.4", "reader: Retract undoes the end-of-input latch set when the last byte was handed out", token.NoPos, undone,
 		"next() latches io.EOF as soon as it has returned the last byte; Retract moves forward back but leaves the latch set, so the retracted last character is never read again: a one-character final token is lost",
